@@ -878,6 +878,21 @@ pub fn ops_for(prop: &str) -> Vec<Op> {
     }
 }
 
+/// the alphabet of the depth-4 pass of the thorough tier (C05 group): one representative per
+/// mechanism; the full alphabet is explored to depth 3
+pub fn core_ops_for(prop: &str) -> Vec<Op> {
+    match prop {
+        "C05" | "C06" | "C07" | "C03" => vec![
+            Op::In(0, 0), Op::In(1, 0), Op::In(2, 0), Op::In(3, 0), Op::In(4, 0), Op::In(5, 0), Op::In(6, 0), Op::In(9, 0), Op::In(7, 0),
+            Op::Out(0), Op::Out(1), Op::Out(2), Op::Out(3), Op::Out(4),
+            Op::Cert(0), Op::Cert(3), Op::Cert(7), Op::Cert(13), Op::Cert(20),
+            Op::Wd(0), Op::Wd(2), Op::WdAgain(0), Op::Wd(4), Op::Mint(0), Op::Mint(1), Op::Mint(3), Op::Proposal(0), Op::Donate,
+            Op::Fee(0), Op::Fee(2), Op::Coll(1), Op::RefIn(3),
+        ],
+        _ => ops_for(prop),
+    }
+}
+
 pub fn methods_for(prop: &str, tier: Tier) -> Vec<Method> {
     match prop {
         "C05" | "C06" | "C07" | "C03" => {
@@ -908,7 +923,8 @@ pub fn configs_for(prop: &str, tier: Tier) -> Vec<usize> {
 pub fn depth_for(prop: &str, tier: Tier) -> usize {
     match (prop, tier.thorough()) {
         ("C05", false) | ("C06", false) | ("C07", false) | ("C03", false) => 3,
-        ("C05", true) | ("C06", true) | ("C07", true) | ("C03", true) => 4,
+        // thorough: the full alphabet to depth 3 under all methods and configurations, plus the deep pass (depth 4, core alphabet)
+        ("C05", true) | ("C06", true) | ("C07", true) | ("C03", true) => 3,
         ("C18", false) | ("C16", false) => 4,
         ("C18", true) | ("C16", true) => 5,
         (_, false) => 5,
@@ -980,10 +996,11 @@ pub fn state_key(st: &St) -> u128 {
     key128(strip_dedup(&s).as_bytes())
 }
 
-pub fn builder_scenario(prop: &'static str, tier: Tier) -> BoxedScenario {
-    let ops = ops_for(prop);
-    let methods = methods_for(prop, tier);
-    let configs = configs_for(prop, tier);
+pub fn builder_scenario(prop: &'static str, tier: Tier, deep: bool) -> BoxedScenario {
+    // deep pass: core alphabet with the quick tier's finishing methods and configurations
+    let ops = if deep { core_ops_for(prop) } else { ops_for(prop) };
+    let methods = methods_for(prop, if deep { Tier::Quick } else { tier });
+    let configs = configs_for(prop, if deep { Tier::Quick } else { tier });
     Box::new(move |ctx: &mut Ctx| {
         WORLD.with(|w| {
             // Plutus items only build with collateral: for the pointer / hash properties it is
@@ -1020,10 +1037,10 @@ pub fn scenario_for(prop: &str, name: &str, tier: Tier) -> Option<BoxedScenario>
         "C18" => "C18",
         _ => return None,
     };
-    if name == "builder" {
-        Some(builder_scenario(stat, tier))
-    } else {
-        None
+    match name {
+        "builder" => Some(builder_scenario(stat, tier, false)),
+        "builder_deep" => Some(builder_scenario(stat, tier, true)),
+        _ => None,
     }
 }
 
@@ -1042,4 +1059,12 @@ pub fn explore_for(prop: &str, tier: Tier, seed: u64, rep: &mut Report) {
     rep.bound("builder_methods", serde_json::json!(methods_for(prop, tier).iter().map(|m| format!("{:?}", m)).collect::<Vec<_>>()));
     rep.bound("builder_configs", serde_json::json!(configs_for(prop, tier).iter().map(|c| config(*c).0).collect::<Vec<_>>()));
     rep.add("builder (BFS over operation histories)", &format!("all histories to depth {} with canonical-state dedup; every (method x config) in every state; RNG <= 1 deviation", depth), st);
+    if tier.thorough() && matches!(prop, "C05" | "C06" | "C07" | "C03") {
+        let f = scenario_for(prop, "builder_deep", tier).unwrap();
+        let core = core_ops_for(prop);
+        let st = bfs("builder_deep", &*f, core.len(), depth + 1, &opts);
+        rep.bound("builder_deep_ops", serde_json::json!(core.iter().map(op_name).collect::<Vec<_>>()));
+        rep.bound("builder_deep_history_depth", serde_json::json!(depth + 1));
+        rep.add("builder_deep (BFS over the core alphabet)", &format!("all histories to depth {} over the core alphabet; quick tier's methods and configurations", depth + 1), st);
+    }
 }
